@@ -461,3 +461,12 @@ Proof.
   intros v b H. change (response_decoder cut_parser w_hdr) with KJson.
   simpl in H. unfold toy_enc in H. injection H as <-. reflexivity.
 Qed.
+
+(* why the round-trip theorems carry hypotheses on the parser: an arbitrary function in the
+   place of mime.ParseMediaType (here: one that rewrites application/json) breaks them *)
+Definition rewriting_parser (s : bytes) : option bytes := if beq s app_json then Some app_xml else Some s.
+
+Lemma rewriting_parser_witness :
+  response_encoder rewriting_parser (fun _ => []) [] [] [] = (Some KJson, app_json)
+  /\ response_decoder rewriting_parser app_json = KXml.
+Proof. split; vm_compute; reflexivity. Qed.
